@@ -1342,6 +1342,15 @@ class _NameWildcardTransformer(ast.NodeTransformer):
         return wildcard
 
 
+def _copy_nodes(template):
+    """Copy of the ast nodes (and plain lists) of a template; anything else is shared."""
+    if isinstance(template, ast.AST):
+        return type(template)(**{key: _copy_nodes(value) for key, value in vars(template).items()})
+    if type(template) is list:
+        return [_copy_nodes(value) for value in template]
+    return template
+
+
 @functools.lru_cache(maxsize=10_000)
 def compile_template(
     source: str | Set[str] | Tuple[str, ...],
@@ -1424,7 +1433,9 @@ def compile_template(
 
         source = source.replace("{{" + replacement_name + suffix + "}}", wildcard_placeholder_name)
 
-        template = transformer.visit(template)
+        # NodeTransformer rewrites the fields of the nodes it visits in place, and a wildcard may be
+        # a node of the (cached) tree of the code being refactored.
+        template = transformer.visit(_copy_nodes(template))
         if name in {"ZeroOrOne_anything", "ZeroOrMany_anything", "OneOrMany_anything"}:
             wildcard = template
         elif name == "Ellipsis_anything":
